@@ -47,7 +47,9 @@ PROP = {
             "and a publisher wrapper (passed to AddHandler or installed with AddPublisherDecorators), optional foreign subscriber (tap) on the source "
             "topic, seeded yield injection at all router.* / gochannel.* hook points and in the wrappers. Stages may emit 2..3 outputs per input (derived lineages l*w+j, the sink must see "
             "every derived lineage); px faults refuse the Publish call that contains output #j of the k-th invocation of a stage. "
-            "Topic names are arbitrary strings derived from the case seed. A fifth of the cases publish the source messages as struct literals "
+            "Topic names are arbitrary strings derived from the case seed; in an eighth of the cases one topic (source, inner or final) is "
+            "named by the empty string, which GoChannel accepts. A Nack of an invocation that neither a scripted fault nor a failure of the stage itself "
+            "explains is recorded as an unscripted failure too (uf...nack: the output was refused by something else than the fault script). A fifth of the cases publish the source messages as struct literals "
             "(&message.Message{UUID, Payload}: nil Metadata, lineage in the UUID only). Every stage honours the context of the message it is handed "
             "(a delivery whose context is already cancelled fails with ctx.Err()) and writes the metadata of its copy; failures that no scripted fault "
             "explains (uf events) go to the Router like any other, are paused 1..50 ms, and more than 20 of them for one (stage, lineage) end the case as "
